@@ -14,7 +14,14 @@ import (
 	"time"
 )
 
-const verifDir = "/verif"
+// verifDir: root of the framework (specs, lock, known findings, bounded tests, replay templates). STFS_VERIF points
+// evaluation batches at a frozen snapshot so that editing /verif does not disturb them.
+var verifDir = func() string {
+	if d := os.Getenv("STFS_VERIF"); d != "" {
+		return d
+	}
+	return "/verif"
+}()
 
 type SiteResult struct {
 	Obl    *Obl
